@@ -6,18 +6,20 @@ xcm_addr_compat.c wrappers, every library call compared with an independent thre
 codec (must-accept / must-reject / either) written from xcm.h's "Address Syntax".  The enumeration is
 cut into numbered batches (`h_addr --list`), one process per batch, dealt to `jobs` workers.
 
-Two passes over the same harness source:
-  asan   clang ASan+UBSan subset: ALL families; every parser input is an exact heap block and every
-         output buffer ends at the end of a heap block, so the first byte read or written outside is
-         trapped (a sanitizer abort is a finding naming the exact call, the batch is resumed behind it)
-  plain  gcc: the short-string family (ii) one length deeper than the sanitizer pass (functional
-         oracle + canaries in front of the buffers only)
+Two builds of the same harness source:
+  asan   clang ASan+UBSan subset: every parser input is an exact heap block and every output buffer ends
+         at the end of a heap block, so the first byte read or written outside is trapped (a sanitizer
+         abort is a finding naming the exact call; the batch is resumed behind it)
+  plain  gcc: functional oracle + canaries in front of AND behind the output buffers
 
-Bounds        quick: short strings <= 6 (tcp) / <= 5 (other prefixes, no prefix) plain, 5/4 asan
-           thorough: short strings <= 7 / <= 6 plain, 6/5 asan
-both tiers: make x all 65536 ports x all capacities 0..len+2 x {IPv4, IPv6, DNS name} x 13 make
-functions; boundary ports x all capacities x 29 hosts; ux/uxf names 0,1,2,106..109; every produced
-string parsed back; port field over [-2,70000] x 6 transports; structured families around every limit.
+quick     asan : make-bnd, make-ux, ports, misc, parse capacities, short strings <= 5 (tcp) / <= 4 (others)
+          plain: make-all (all 65536 ports x all capacities), short strings <= 6 / <= 5
+thorough  asan : every family incl. make-all, short strings <= 6 / <= 5
+          plain: short strings <= 7 / <= 6
+Families: make-all = 13 make functions x {IPv4, IPv6, DNS name} x all 65536 ports x all capacities 0..len+2
+(each string parsed back through the 19 parser entry points); make-bnd = boundary ports x all capacities x
+29 hosts; make-ux = ux/uxf names 0,1,2,106..109 x all capacities; ports = port field over [-2,70000] x 6
+transports; misc = structured families around every limit; short = all strings over a 15-letter alphabet.
 """
 import hashlib
 import json
@@ -38,10 +40,21 @@ LEVEL = "model_checking"
 LOG_DIR = os.path.join(build.BUILD, "logs", "C12")
 MAX_RESUMES = 40                # sanitizer aborts / hangs tolerated per batch before it is given up
 
-BOUNDS = {
-    #           asan (ltcp, lother)   plain (ltcp, lother)
-    "quick": ((5, 4), (6, 5)),
-    "thorough": ((6, 5), (7, 6)),
+def _is_short(desc):
+    return desc.startswith("short ")
+
+
+def _is_make_all(desc):
+    return desc.startswith("make-all ")
+
+
+# tier -> [(variant, (ltcp, lother), which batches)]; the LAST plain entry defines the short-string family
+# whose members are counted as states (the sanitizer pass repeats its shorter part)
+PASSES = {
+    "quick": [("asan", (5, 4), lambda d: not _is_make_all(d)),
+              ("plain", (6, 5), lambda d: _is_make_all(d) or _is_short(d))],
+    "thorough": [("asan", (6, 5), lambda d: True),
+                 ("plain", (7, 6), _is_short)],
 }
 
 ASSUME = [
@@ -55,8 +68,10 @@ ASSUME = [
     "trailing junk, empty host, unbalanced brackets, ':' outside brackets, blanks or control characters anywhere in "
     "a host, DNS names > 253, UX/UXF names > 107 bytes, unknown transport name, missing separators",
     "IPv6 text produced by make may be any RFC 4291 text of the same 16 bytes (RFC 5952 form not demanded)",
-    "memory safety of reads is decided in the sanitizer pass only (inputs are exact-size heap blocks, output "
-    "buffers end at the end of a heap block); the plain pass has canaries in front of the buffers",
+    "reads outside the buffers are decided in the sanitizer build only (inputs are exact-size heap blocks, output "
+    "buffers end at the end of a heap block); the plain build detects writes outside through canaries in front of "
+    "and behind the output buffers; quick runs make-all (all ports) and the longest short strings in the plain "
+    "build only, thorough runs make-all under the sanitizer as well",
     "termination: a call that consumes 5 s of the process's own CPU time without returning is a hang "
     "(ITIMER_PROF; independent of wall-clock and machine load)",
     "xcm_addr_is_valid / is_supported / the xcm_addr_compat.c parsers are checked differentially against the eight "
@@ -194,7 +209,8 @@ def _confirm(exe, variant, one, sig):
 def run(chk, tier, jobs, deadline):
     chk.assumptions += ASSUME
     os.makedirs(LOG_DIR, exist_ok=True)
-    lens_asan, lens_plain = BOUNDS["quick" if tier == "quick" else "thorough"]
+    passes = PASSES["quick" if tier == "quick" else "thorough"]
+    lens_asan, lens_plain = passes[0][1], passes[1][1]
     dl = deadline or (900 if tier == "quick" else 2700)
     t_end = chk.t0 + dl
 
@@ -202,17 +218,16 @@ def run(chk, tier, jobs, deadline):
     ru0 = resource.getrusage(resource.RUSAGE_CHILDREN)
     work = []
     nb = {}
-    # asan pass: everything; states of its short-string batches are counted by the plain pass (superset)
-    for variant, lens, only_short in (("asan", lens_asan, False), ("plain", lens_plain, True)):
+    # states of the sanitizer pass's short-string batches are counted by the plain pass (a superset)
+    for variant, lens, want in passes:
         bl = _list_batches(exes[variant], variant, lens, lens_plain)
         nb[variant] = 0
         for b in bl:
-            short = b["desc"].startswith("short ")
-            if only_short and not short:
+            if not want(b["desc"]):
                 continue
             nb[variant] += 1
-            work.append(dict(exe=exes[variant], variant=variant, id=b["id"], desc=b["desc"], short=short,
-                             args=_lens_args(lens, lens_plain),
+            work.append(dict(exe=exes[variant], variant=variant, id=b["id"], desc=b["desc"],
+                             short=_is_short(b["desc"]), args=_lens_args(lens, lens_plain),
                              weight=b["weight"] * (4.5 if variant == "asan" else 1.0)))
     work.sort(key=lambda j: (-j["weight"], j["variant"], j["id"]))
 
